@@ -164,3 +164,42 @@ package imperatives
 //@   ensures[optTrue; C20] forall i int :: 0 <= i && i < len(tokens) ==> ((tokens[i].Token == optTrue) == (tokens[i].Pattern == "true"))
 //@   ensures[optFalse; C20] forall i int :: 0 <= i && i < len(tokens) ==> ((tokens[i].Token == optFalse) == (tokens[i].Pattern == "false"))
 //@   ensures[sep; C20] forall i int :: 0 <= i && i < len(tokens) ==> ((tokens[i].Token == sep) == (tokens[i].Pattern == "##"))
+
+// ---------------------------------------------------------------- what a command adds to the table (C20)
+// The table is seen through its interface; the entries handed to it are recorded in ghost call logs.
+//@ iface (t table.Interface) AddBlacklist(m *matcher.Matcher)
+//@   logged
+//@ iface (t table.Interface) AddRewriter(rw rewriter.RW)
+//@   logged
+//@ iface (t table.Interface) AddAggregator(agg *aggregator.Aggregator)
+//@   logged
+//@ iface (t table.Interface) AddRoute(r route.Route)
+//@   logged
+//@ iface (t table.Interface) GetSpoolDir() string
+//@   pure
+//@
+//@ // addBlack <kind> <pattern>: exactly the named condition is set to the pattern, the other five stay empty
+//@ func readAddBlack(s *toki.Scanner, table table.Interface) (err error)
+//@   property C20,C14
+//@   requires s != nil && table != nil && table.ref != 0
+//@   let st := s.stream
+//@   let p  := s.pos
+//@   let kind := tkVal(st, p)
+//@   let v    := tkVal(st, p + 1)
+//@   modifies s.pos, calls(table.AddBlacklist)
+//@   ensures[one_condition; C20] err == nil ==> tkKind(st, p) == word && tkKind(st, p + 1) == word && (exists m *matcher.Matcher :: m != nil && calls(table.AddBlacklist) == old(calls(table.AddBlacklist)) ++ argsOf(m)
+//@        && m.Prefix == (kind == "prefix" ? v : "") && m.NotPrefix == (kind == "notPrefix" ? v : "") && m.Sub == (kind == "sub" ? v : "")
+//@        && m.NotSub == (kind == "notSub" ? v : "") && m.Regex == (kind == "regex" ? v : "") && m.NotRegex == (kind == "notRegex" ? v : ""))
+//@   ensures[unknown_kind_is_refused; C20] kind != "prefix" && kind != "notPrefix" && kind != "sub" && kind != "notSub" && kind != "regex" && kind != "notRegex" ==> err != nil
+//@   ensures[nothing_added_on_error; C20] err != nil ==> calls(table.AddBlacklist) == old(calls(table.AddBlacklist))
+//@
+//@ // addRewriter <old> <new> <max>
+//@ func readAddRewriter(s *toki.Scanner, table table.Interface) (err error)
+//@   property C20,C14
+//@   requires s != nil && table != nil && table.ref != 0
+//@   let st := s.stream
+//@   let p  := s.pos
+//@   modifies s.pos, calls(table.AddRewriter)
+//@   ensures[as_written; C20] err == nil ==> (exists rest elem :: calls(table.AddRewriter) == old(calls(table.AddRewriter)) ++
+//@        eP(eP(eS(tkVal(st, p)), eP(eS(tkVal(st, p + 1)), eP(eS(""), eP(eI(atoiOf(btrim(tkVal(st, p + 2)))), rest)))), eNil))
+//@   ensures[nothing_added_on_error; C20] err != nil ==> calls(table.AddRewriter) == old(calls(table.AddRewriter))
